@@ -48,7 +48,82 @@ pub fn run(prop: &str, tier: &str) -> i32 {
     }
 }
 
-pub fn replay(prop: &str, _file: &str) -> i32 {
-    eprintln!("replay not implemented for {}", prop);
-    3
+/// Replays one recorded violation. Chain-model histories are replayed directly on the
+/// model (no exploration); everything else re-runs the part that produced it and keeps
+/// only violations at exactly the recorded history.
+pub fn replay(prop: &str, file: &str) -> i32 {
+    use crate::chain::{cfg_from_context, Alphabet, ChainModel, Ev};
+    use crate::engine::replay_one;
+    let text = match std::fs::read_to_string(file) {
+        Ok(t) => t,
+        Err(e) => {
+            eprintln!("cannot read {}: {}", file, e);
+            return 3;
+        }
+    };
+    let v: serde_json::Value = match serde_json::from_str(&text) {
+        Ok(v) => v,
+        Err(e) => {
+            eprintln!("cannot parse {}: {}", file, e);
+            return 3;
+        }
+    };
+    let ctx = &v["context"];
+    let hist_json = v["history"].clone();
+    if ctx["model"] == "chain" {
+        if let Ok(hist) = serde_json::from_value::<Vec<Ev>>(hist_json.clone()) {
+            let cfg = cfg_from_context(ctx);
+            let alpha = Alphabet::tree(0, &[1]);
+            let o = &ctx["oracle"];
+            let out = match prop {
+                "C01" => {
+                    let limits: Vec<Option<usize>> = serde_json::from_value(o["limits"].clone()).unwrap_or(vec![None]);
+                    Some(replay_one(&ChainModel { cfg, alpha, oracle: c01::C01 { limits } }, &hist))
+                }
+                "C02" => Some(replay_one(&ChainModel { cfg, alpha, oracle: c02::C02 }, &hist)),
+                "C03" => Some(replay_one(&ChainModel { cfg, alpha, oracle: c03::C03 }, &hist)),
+                "C04" => {
+                    let limit: Option<usize> = serde_json::from_value(o["limit"].clone()).unwrap_or(None);
+                    Some(replay_one(&ChainModel { cfg, alpha, oracle: c04::C04 { limit } }, &hist))
+                }
+                "C05" => {
+                    let m = c05::malformed_set(cfg.net);
+                    Some(replay_one(&ChainModel { cfg, alpha, oracle: c05::C05 { malformed: m } }, &hist))
+                }
+                "C07" => Some(replay_one(&ChainModel { cfg, alpha, oracle: c07::C07 }, &hist)),
+                "C09" => {
+                    let continuation = o["continuation"].as_u64().unwrap_or(2) as usize;
+                    Some(replay_one(&ChainModel { cfg, alpha, oracle: c09::C09 { continuation } }, &hist))
+                }
+                "C14" => Some(replay_one(&ChainModel { cfg, alpha, oracle: c14::C14 }, &hist)),
+                "C20" => Some(replay_one(&ChainModel { cfg, alpha, oracle: c20::C20 }, &hist)),
+                _ => None,
+            };
+            if let Some(out) = out {
+                let kind = v["kind"].as_str().unwrap_or("");
+                let same: Vec<_> = out.violations.iter().filter(|x| x.kind == kind).collect();
+                for x in &out.violations {
+                    crate::util::say(&format!(
+                        "REPLAY property={} kind={} finding_signature={:?} after={} events detail={}",
+                        prop,
+                        x.kind,
+                        x.finding,
+                        x.history.as_array().map(|a| a.len()).unwrap_or(0),
+                        x.detail
+                    ));
+                }
+                crate::util::say(&format!(
+                    "REPLAY property={} reproduced={} (history of {} events replayed on the real code without the explorer)",
+                    prop,
+                    !same.is_empty(),
+                    hist.len()
+                ));
+                return if same.is_empty() { 0 } else { 1 };
+            }
+        }
+    }
+    // generic path: re-run the tier that produced it, keeping only this history
+    let _ = crate::engine::REPLAY_TARGET.set(hist_json);
+    let tier = v["tier"].as_str().unwrap_or("quick").to_string();
+    run(prop, &tier)
 }
